@@ -67,8 +67,7 @@ def tool(name, out, cfg):
 
 def page_lines(rng, pfn, n=PAGE, compressible=False):
     """Content of one page as data-file lines; the content names the frame.
-    compressible=True: only contents that RLE and deflate shrink (LKCD pages whose
-    compressed form is larger than a page run into defect #9, owned by C03)."""
+    compressible=True: only contents that RLE and deflate shrink."""
     k = rng.random()
     if compressible:
         k *= 0.35
@@ -217,7 +216,7 @@ def gen_lkcd(rng, work, tag, out_of_order=None):
     for pfn in pfns:
         fl = "raw" if compression == 0 or rng.random() < 0.3 else "compress"
         lines.append("@0x%x %s" % (pfn * PAGE, fl))
-        lines += page_lines(rng, pfn, compressible=(fl == "compress"))
+        lines += page_lines(rng, pfn)
     lines.append("@0 end")
     data = os.path.join(work, tag + ".data")
     open(data, "w").write("\n".join(lines) + "\n")
